@@ -505,6 +505,47 @@ func encAll(args []any) any {
 	return r
 }
 
+// frame exercises bkl's stream framing through the public Format API: the stream bkl writes for the documents, the
+// per-document encodings by the libraries called directly, and what bkl reads back from its own stream.
+func frame(args []any) any {
+	f := args[0].(string)
+	docs := args[1].([]any)
+	fm, err := bkl.GetFormat(f)
+	if err != nil {
+		return []any{"err", "format"}
+	}
+	stream, err := fm.MarshalStream(docs)
+	if err != nil {
+		return []any{"err", "marshal"}
+	}
+	parts := []any{}
+	for _, d := range docs {
+		b, err := encode(f, d)
+		if err != nil {
+			return []any{"err", "encode"}
+		}
+		parts = append(parts, string(b))
+	}
+	back, err := fm.UnmarshalStream(stream)
+	if err != nil {
+		return []any{"ok", map[string]any{"stream": string(stream), "parts": parts, "read": []any{"err", "unmarshal"}}}
+	}
+	return []any{"ok", map[string]any{"stream": string(stream), "parts": parts, "read": ok(back)}}
+}
+
+// unframe: what bkl reads from a given text in a format (number of documents and their values)
+func unframe(args []any) any {
+	fm, err := bkl.GetFormat(args[0].(string))
+	if err != nil {
+		return []any{"err", "format"}
+	}
+	back, err := fm.UnmarshalStream([]byte(args[1].(string)))
+	if err != nil {
+		return []any{"err", "unmarshal"}
+	}
+	return ok(back)
+}
+
 func runCase(c any) (res any) {
 	defer func() {
 		if e := recover(); e != nil {
@@ -525,6 +566,10 @@ func runCase(c any) (res any) {
 		return yamlParse(l[1:])
 	case "enc":
 		return encAll(l[1:])
+	case "frame":
+		return frame(l[1:])
+	case "unframe":
+		return unframe(l[1:])
 	}
 	return []any{"badcase"}
 }
